@@ -354,7 +354,7 @@ pub fn main(env: &Env) -> i32 {
     ));
     env.finish(
         "exploration",
-        "generated request / peer programs on a deterministic runtime with a set model; the fetcher and the peer path of a live node are covered by the live part",
+        "generated request / peer programs on a deterministic runtime with a set model; the fetcher loop of a running node is not driven as a whole (only the queue it is built on)",
         &["concurrent requests for the same block number are documented as unsupported and not generated"],
         parts,
     )
